@@ -414,6 +414,11 @@ class List(list, base.Symbolic, pg_typing.CustomTyping):
       if isinstance(value, base.Symbolic) and value.sym_parent is not None:
         value = value.clone()
 
+    if ((should_insert or index >= len(self))
+        and self.max_size is not None and len(self) >= self.max_size):
+      raise ValueError(
+          self._error_message(f'List reached its max size {self.max_size}.'))
+
     old_value = pg_typing.MISSING_VALUE
     # Replace an existing value.
     if index < len(self) and not should_insert:
@@ -536,6 +541,7 @@ class List(list, base.Symbolic, pg_typing.CustomTyping):
       replacements = [self._formalized_value(i, v) for i, v in enumerate(value)]
       if step == 1:
         slice_size = max(0, stop - start)
+        self._check_size(len(self) - slice_size + len(replacements))
         if slice_size < len(replacements):
           for i in range(slice_size, len(replacements)):
             replacements[i] = Insertion(replacements[i])
@@ -583,6 +589,7 @@ class List(list, base.Symbolic, pg_typing.CustomTyping):
       # Delete from the back so that the remaining indices stay valid, and
       # notify once for the whole slice.
       updates = []
+      self._check_size(len(self) - len(range(*self._parse_slice(index))))
       for i in sorted(range(*self._parse_slice(index)), reverse=True):
         old_value = self.sym_getattr(i)
         super().__delitem__(i)
@@ -607,6 +614,7 @@ class List(list, base.Symbolic, pg_typing.CustomTyping):
           f'list index out of range. '
           f'Length={len(self)}, index={index}')
 
+    self._check_size(len(self) - 1)
     old_value = self.sym_getattr(index)
     super().__delitem__(index)
     # Detach the removed value from object tree.
@@ -620,6 +628,21 @@ class List(list, base.Symbolic, pg_typing.CustomTyping):
               self._value_spec.element if self._value_spec else None,
               old_value, pg_typing.MISSING_VALUE)
       ])
+
+  def _check_size(self, new_size: int) -> None:
+    """Raises if a mutation would leave the list outside its size bounds."""
+    if self._value_spec is None:
+      return
+    if new_size < self._value_spec.min_size:
+      raise ValueError(
+          self._error_message(
+              f'List cannot have fewer than {self._value_spec.min_size} '
+              f'elements (min size).'))
+    if self.max_size is not None and new_size > self.max_size:
+      raise ValueError(
+          self._error_message(
+              f'List cannot have more than {self.max_size} elements '
+              f'(max size).'))
 
   def __add__(self, other: Iterable[Any]) -> 'List':
     """Returns a concatenated List of self and other."""
